@@ -445,20 +445,25 @@ def r96(ctx, prog):
                 if e[0] == "cond" and e[2] is True:
                     for c in ast.walk(e[1]):
                         if isinstance(c, ast.Compare) and len(c.ops) == 1 and isinstance(c.ops[0], ast.Eq):
-                            sides = [c.left, c.comparators[0]]
-                            srcs = []
-                            for s_ in sides:
-                                s_ = env.get(s_.id, s_) if isinstance(s_, ast.Name) else s_
-                                srcs.append(ast.unparse(s_))
-                            if tparam in srcs or any(tparam in x for x in srcs):
-                                cmpd = srcs
+                            sides = [env.get(s_.id, s_) if isinstance(s_, ast.Name) else s_ for s_ in (c.left, c.comparators[0])]
+                            if any(isinstance(x, ast.Name) and x.id == tparam for x in ast.walk(c)):
+                                cmpd = sides
             if cmpd is None:
                 probs.append("an id is handed out on a path that has not compared the stored target with the requested one")
                 continue
-            other = [x for x in cmpd if x != tparam]
             ok_other = {"%s.target_ref" % v, "%s.target_part" % v, "%s._target" % v}
-            if tparam not in cmpd or not other or other[0] not in ok_other:
-                probs.append("the stored target and the requested one are compared as `%s == %s`, not as the unmodified values" % (cmpd[0], cmpd[1]))
+
+            def stored(e_):
+                """the relationship's own target, unmodified (possibly chosen by target mode)"""
+                if isinstance(e_, ast.IfExp):
+                    return stored(e_.body) and stored(e_.orelse)
+                return ast.unparse(e_) in ok_other
+
+            req = [x for x in cmpd if isinstance(x, ast.Name) and x.id == tparam]
+            other = [x for x in cmpd if not (isinstance(x, ast.Name) and x.id == tparam)]
+            if len(req) != 1 or len(other) != 1 or not stored(other[0]):
+                probs.append("the stored target and the requested one are compared as `%s == %s`, not as the unmodified values" % (
+                    ast.unparse(cmpd[0]), ast.unparse(cmpd[1])))
     if not hits:
         ctx.error("_Relationships._get_matching", "no path returning the id of a matching relationship was recognised")
     elif probs:
